@@ -33,7 +33,9 @@ def definitions(draw):
     nslots = draw(st.integers(0, 4))
     slots = []
     used_tags = set()
-    pool = [":alpha", ":beta", ":gamma", ":delta", ":eps", ":zeta", ":eta", ":theta", ":is", ":over"]
+    pool = [":alpha", ":beta", ":gamma", ":delta", ":eps", ":zeta", ":eta", ":theta", ":is", ":over",
+            # names that built-in commands also use (some of them bound to an extension there)
+            ":copy", ":create", ":flags", ":seconds", ":days", ":comparator", ":regex", ":count", ":subject"]
     for k in range(nslots):
         avail = [t for t in pool if t not in used_tags]
         tags = draw(st.lists(st.sampled_from(avail), min_size=1, max_size=2, unique=True))
@@ -219,6 +221,13 @@ def uses_of(name, entry, rnd_pick):
         if len(entry.pos) > 1:
             first = posforms[0][0]
             yield "tag-between-positionals", flat[len(base_slots[0]):] + first + base_slots[0] + pos_tokens(0)[len(first):]
+    for si, s in enumerate(slots):
+        tags = sorted(s.tags)
+        if len(tags) >= 2:
+            others = [t for k, bs in enumerate(base_slots) if k != si for t in bs]
+            for a, b in ((tags[0], tags[1]), (tags[1], tags[0])):
+                yield "two-tags-of-one-slot", others + slot_tokens(s, a, 0, False) + slot_tokens(s, b, 1, False) + base_pos
+                yield "two-tags-of-one-slot", slot_tokens(s, a, 1, False) + others + slot_tokens(s, b, 0, True) + base_pos
     for j, p in enumerate(entry.pos):
         for wf in wrong_forms(p.kinds):
             toks = []
@@ -304,11 +313,13 @@ def check_use(name, entry, defn, text, kind, table, known):
             d = dict(base)
             d.update(expected_arguments=exp_args, expected_extra=exp_extra, got_arguments=got_args, got_extra=got_extra)
             out.append(("arguments-recorded-differently", d))
+    if o.verdict is True:
+        # whatever is accepted - also a use on which the reference makes no statement - must survive printing
         status, b, d, _ = c04.roundtrip(text)
         if status == "fail":
             d2 = dict(base)
             d2["roundtrip"] = d
-            out.append(("roundtrip|" + b, d2))
+            out.append(("roundtrip|" + b + ("" if r.verdict == VALID else "|use-not-VALID"), d2))
     return r, out
 
 
